@@ -3,6 +3,7 @@
 
 pub mod common;
 pub mod lutops;
+pub mod two;
 
 use serde_json::Value;
 
@@ -28,6 +29,11 @@ pub fn generate(prop: &str, tier: &str, seed: u64) -> Vec<Episode> {
         "C10b" => lutops::gen_c10b(thorough, seed),
         "C11" => lutops::gen_c11(thorough, seed),
         "C17" => lutops::gen_c17(thorough, seed),
+        "C12" => two::gen_c12(thorough, seed),
+        "C13" => two::gen_c13(thorough, seed),
+        "C14" => two::gen_c14(thorough, seed),
+        "C15" => two::gen_c15(thorough, seed),
+        "C16" => two::gen_c16(thorough, seed),
         _ => panic!("HARNESS: no generator for {}", prop),
     }
 }
